@@ -83,6 +83,19 @@ def token(rng, kind, seqs):
     if kind == 'N':   # message whose payload does not deserialise (known type, wrong length / junk)
         t, _, p, v = rng.choice(class_payloads())
         return frame(t, bytes(rng.randrange(256) for _ in range(rng.choice([1, 3, max(1, len(p) - 1)]))), seq, src, v)
+    if kind in 'LKM':   # LARGE messages (1-5 kB): valid / failing the CRC / a false header announcing that much, fully present
+        n = rng.choice([1000, 1023, 1024, 1025, 2047, 2048, 2049, 3000, 4100])
+        t = rng.choice([13120, 14102, 2999, 9])
+        body = bytes(rng.randrange(256) for _ in range(n))
+        if kind == 'L':
+            return frame(t, body, seq, src)
+        if kind == 'K':
+            m = bytearray(frame(t, body, seq, src))
+            i = rng.choice([4, 5, 6, 7, 24, len(m) - 1, rng.randrange(8, len(m))])     # CRC field or a protected byte
+            m[i] ^= 1 << rng.randrange(8)
+            return bytes(m)
+        return SYNC + struct.pack('<HIBBHIII', 0, rng.getrandbits(32), 2, 0, rng.choice([10000, 13120, 9]),
+                                  rng.getrandbits(32), n, 0) + body[:n]
     raise ValueError(kind)
 
 
